@@ -113,6 +113,7 @@ MetaFailing(r, o) ==
     \* ... wherever the declaration sits: in a style rule inside @media, among the (otherwise valid) descriptors of an @font-face rule
     ELSE IF o.nested.media_sheet # o.base \/ o.nested.page_sheet # o.base THEN "RuleAndSheetValidAreConjunctions"
     ELSE IF o.nested.ff_others /\ o.nested.ff_sheet # o.nested.ff_decl THEN "RuleAndSheetValidAreConjunctions"
+    ELSE IF ~o.nested.ff_dup_conj THEN "RuleAndSheetValidAreConjunctions"           \* ... shadowed declarations included
     ELSE IF o.text_validate_on # o.text_validate_off THEN "ValidationOnlyAnnotates"
     ELSE IF o.dom_validate_on # o.dom_validate_off THEN "ValidationOnlyAnnotates"
     ELSE "ok"
